@@ -11,10 +11,12 @@ pub(crate) mod verif_ring {
 
     /// E-HIST over the public RingBuf API: n push/pop operations on a fresh buffer of capacity `cap`
     /// against a FIFO model; at the end the buffer is dropped and the drop counters are checked.
-    pub fn hist<B: RingBuf<Item = Tag>, S: Src>(s: &mut S, cap: usize, n: usize) -> u32 {
+    pub fn hist<B: RingBuf<Item = Tag>, S: Src>(s: &mut S, cap: usize, n: usize, p: u32) -> u32 {
         #[cfg(not(kani))]
         reset_tags(); // (statics start zeroed in every proof harness)
         let mut buf = B::with_capacity(cap);
+        // C18: between construction and destruction a non-growing buffer never reaches the allocator
+        if (p & P18) != 0 { arm_alloc(); }
         let mut model = [0u8; 8];
         let mut len = 0usize;
         let mut next: u8 = 0;
@@ -51,8 +53,10 @@ pub(crate) mod verif_ring {
             assert!(buf.is_empty() == (len == 0), "C19 ring buffer: is_empty() inconsistent");
             assert!(buf.can_push() == (len < cap), "C19 ring buffer: can_push() inconsistent");
             assert!(buf.capacity() == cap, "C19 ring buffer: capacity() changed");
+            if (p & P18) != 0 { assert!(alloc_events() == 0, "C18 ring buffer: push/pop on a non-growing buffer allocated or freed heap memory"); }
         }
         if len > 0 { bits |= W_DROP_NONEMPTY; }
+        if (p & P18) != 0 { disarm_alloc(); }
         drop(buf);
         // every element still inside was dropped exactly once, popped ones not at all
         let mut id: u8 = 0;
@@ -107,23 +111,23 @@ pub(crate) mod verif_ring {
     }
 
     #[no_mangle]
-    pub fn fi_verif_replay_ring(name: &str, cfg: u32, _p: u32, s: &mut ScriptSrc<'_>) -> bool {
+    pub fn fi_verif_replay_ring(name: &str, cfg: u32, p: u32, s: &mut ScriptSrc<'_>) -> bool {
         let cap = cfg as usize;
         match (name, cap) {
-            ("ring_hist_array", 0) => { hist::<ArrayBuf<Tag, [Tag; 0]>, _>(s, 0, 64); }
-            ("ring_hist_array", 1) => { hist::<ArrayBuf<Tag, [Tag; 1]>, _>(s, 1, 64); }
-            ("ring_hist_array", 2) => { hist::<ArrayBuf<Tag, [Tag; 2]>, _>(s, 2, 64); }
-            ("ring_hist_array", 3) => { hist::<ArrayBuf<Tag, [Tag; 3]>, _>(s, 3, 64); }
-            ("ring_hist_array", 4) => { hist::<ArrayBuf<Tag, [Tag; 4]>, _>(s, 4, 64); }
+            ("ring_hist_array", 0) => { hist::<ArrayBuf<Tag, [Tag; 0]>, _>(s, 0, 64, p); }
+            ("ring_hist_array", 1) => { hist::<ArrayBuf<Tag, [Tag; 1]>, _>(s, 1, 64, p); }
+            ("ring_hist_array", 2) => { hist::<ArrayBuf<Tag, [Tag; 2]>, _>(s, 2, 64, p); }
+            ("ring_hist_array", 3) => { hist::<ArrayBuf<Tag, [Tag; 3]>, _>(s, 3, 64, p); }
+            ("ring_hist_array", 4) => { hist::<ArrayBuf<Tag, [Tag; 4]>, _>(s, 4, 64, p); }
             #[cfg(feature = "alloc")]
             ("ring_zst_fixed", _) => { hist_zst::<FixedHeapBuf<ZTag>, _>(s, cap, 64); }
             #[cfg(feature = "alloc")]
             ("ring_zst_growing", _) => { hist_zst::<GrowingHeapBuf<ZTag>, _>(s, cap, 64); }
             ("ring_zst_array", 2) => { hist_zst::<ArrayBuf<ZTag, [ZTag; 2]>, _>(s, 2, 64); }
             #[cfg(feature = "alloc")]
-            ("ring_hist_fixed", _) => { hist::<FixedHeapBuf<Tag>, _>(s, cap, 64); }
+            ("ring_hist_fixed", _) => { hist::<FixedHeapBuf<Tag>, _>(s, cap, 64, p); }
             #[cfg(feature = "alloc")]
-            ("ring_hist_growing", _) => { hist::<GrowingHeapBuf<Tag>, _>(s, cap, 64); }
+            ("ring_hist_growing", _) => { hist::<GrowingHeapBuf<Tag>, _>(s, cap, 64, p); }
             _ => return false,
         }
         true
@@ -232,7 +236,7 @@ pub(crate) mod verif_ring {
                 #[kani::proof]
                 #[kani::unwind($unw)]
                 fn $name() {
-                    let b = hist::<$ty, _>(&mut KaniSrc, $cap, $n);
+                    let b = hist::<$ty, _>(&mut KaniSrc, $cap, $n, 0);
                     hist_proof!(@cover $wit, b);
                 }
             };
@@ -257,6 +261,24 @@ pub(crate) mod verif_ring {
         hist_proof!(growing_hist_c2, GrowingHeapBuf<Tag>, 2, 6, 8, W_FULL_THEN_POP);
         hist_proof!(growing_hist_c3, GrowingHeapBuf<Tag>, 3, 6, 8, W_FULL_THEN_POP);
 
+        // C18: FixedHeapBuf pre-allocates - filling it completely never reaches the allocator (counting stubs)
+        macro_rules! c18_proof {
+            ($name:ident, $ty:ty, $cap:expr, $n:expr, $unw:expr) => {
+                #[kani::proof]
+                #[kani::unwind($unw)]
+                #[kani::stub(alloc::alloc::alloc, crate::verif::common::stub_alloc)]
+                #[kani::stub(alloc::alloc::dealloc, crate::verif::common::stub_dealloc)]
+                #[kani::stub(alloc::alloc::realloc, crate::verif::common::stub_realloc)]
+                fn $name() {
+                    let b = hist::<$ty, _>(&mut KaniSrc, $cap, $n, P18);
+                    kani::cover!(b & W_FULL_THEN_POP != 0, "W ring hist: the buffer became full and was popped");
+                }
+            };
+        }
+        c18_proof!(fixed_c18_c1_n3, FixedHeapBuf<Tag>, 1, 3, 6);
+        c18_proof!(fixed_c18_c2_n3, FixedHeapBuf<Tag>, 2, 3, 6);
+        c18_proof!(array_c18_c2_n4, ArrayBuf<Tag, [Tag; 2]>, 2, 4, 6);
+
         #[kani::proof]
         #[kani::unwind(6)]
         fn zst_fixed_c0() { let _ = hist_zst::<FixedHeapBuf<ZTag>, _>(&mut KaniSrc, 0, 2); }
@@ -272,7 +294,7 @@ pub(crate) mod verif_ring {
         #[kani::proof]
         #[kani::unwind(8)]
         fn array_witness_c2() {
-            let b = hist::<ArrayBuf<Tag, [Tag; 2]>, _>(&mut KaniSrc, 2, 5);
+            let b = hist::<ArrayBuf<Tag, [Tag; 2]>, _>(&mut KaniSrc, 2, 5, 0);
             assert!(b & (W_WRAP | W_DROP_NONEMPTY) != (W_WRAP | W_DROP_NONEMPTY), "WITNESS reached");
         }
     }
